@@ -2,7 +2,7 @@
    the correspondence check exercises (and that the vm_compute cross-check
    runs inside Coq as well). *)
 From Coq Require Import NArith List Bool.
-From PV Require Import Base.Sx Model.Forest.
+From PV Require Import Base.Sx Model.Forest Model.Table Model.LRDriver Model.Scan Model.Parser.
 Import ListNotations.
 Local Open Scope N_scope.
 
@@ -18,5 +18,65 @@ Fixpoint sx_of_tree (t : tree) : sx :=
   | TLeaf y s e => L [A 0; A y; A s; A e]
   | TNode p s e cs => L [A 1; A p; A s; A e; L (map sx_of_tree cs)]
   end.
+Fixpoint tree_of_sx (s : sx) : tree :=
+  match s with
+  | A _ => TLeaf 0 0 0
+  | L l =>
+      match l with
+      | A 0 :: A y :: A b :: A e :: _ => TLeaf y b e
+      | A _ :: A p :: A b :: A e :: L cs :: _ => TNode p b e (map tree_of_sx cs)
+      | _ => TLeaf 0 0 0
+      end
+  end.
+
 Definition sx_of_otree (o : option tree) : sx :=
   match o with None => L [] | Some t => L [sx_of_tree t] end.
+
+(* ---- grammars and tables ------------------------------------------------ *)
+Definition sym_of_sx (s : sx) : sym :=
+  match sxN (sx_nth s 0) with 0 => T (sxN (sx_nth s 1)) | _ => NT (sxN (sx_nth s 1)) end.
+Definition sx_of_sym (x : sym) : sx :=
+  match x with T t => L [A 0; A t] | NT a => L [A 1; A a] end.
+Definition prod_of_sx (s : sx) : prod :=
+  mkProd (sxN (sx_nth s 0)) (map sym_of_sx (sxL (sx_nth s 1))).
+Definition grammar_of_sx (s : sx) : grammar := map prod_of_sx (sxL s).
+
+Definition action_of_sx (s : sx) : action :=
+  match sxN (sx_nth s 0) with
+  | 0 => Shift (sxNat (sx_nth s 1))
+  | 1 => Reduce (sxN (sx_nth s 1))
+  | _ => Accept
+  end.
+Definition state_of_sx (s : sx) : state :=
+  mkState (sym_of_sx (sx_nth s 0))
+          (map (fun ya => (sxN (sx_nth ya 0), map action_of_sx (sxL (sx_nth ya 1)))) (sxL (sx_nth s 1)))
+          (map (fun g => (sxN (sx_nth g 0), sxNat (sx_nth g 1))) (sxL (sx_nth s 2)))
+          (map sxB (sxL (sx_nth s 3)))
+          (map (fun it => (sxN (sx_nth it 0), sxNat (sx_nth it 1))) (sxL (sx_nth s 4))).
+Definition table_of_sx (s : sx) : table := map state_of_sx (sxL s).
+
+Definition terms_of_sx (s : sx) : list term_info :=
+  map (fun t => mkTerm (sxN (sx_nth t 0)) (sxB (sx_nth t 1))) (sxL s).
+
+(* (grammar table terms stop consume lexdis ws layout_opt) *)
+Definition pconf_of_sx (s : sx) : pconf :=
+  mkPConf (grammar_of_sx (sx_nth s 0)) (table_of_sx (sx_nth s 1)) (terms_of_sx (sx_nth s 2))
+          (sxN (sx_nth s 3)) (sxB (sx_nth s 4)) (sxB (sx_nth s 5)) (sxNs (sx_nth s 6))
+          (match sxL (sx_nth s 7) with [] => None | t :: _ => Some (table_of_sx t) end).
+
+Definition pinput_of_sx (s : sx) : pinput :=
+  mkPInput (sxNs (sx_nth s 0)) (map sxNs (sxL (sx_nth s 1))).
+
+Definition sx_of_span (p : N * N) : sx := L [A (fst p); A (snd p)].
+
+Definition sx_of_lr (r : lr_result) : sx :=
+  match r with
+  | LROk t rp lay tr =>
+      L [A 0; sx_of_tree t; A rp; sx_of_span lay;
+         L (map (fun x => match x with (y, s, e, l) => L [A y; A s; A e; sx_of_span l] end) tr)]
+  | LRSyntaxError pos st => L [A 1; A pos; ofNat st]
+  | LRDisambiguation pos st => L [A 2; A pos; ofNat st]
+  | LROutOfFuel => L [A 3]
+  | LRLayoutError pos => L [A 4; A pos]
+  | LRCrash code => L [A 5; A code]
+  end.
